@@ -29,7 +29,17 @@ import t4eval
 import c03_gen as G
 from common import clist, cfloat, cpair, cn, cz, cnat, copt
 
+# every theorem of coq/Properties/C03.v is a member of exactly one family; the
+# families are conjunctions of the member theorems themselves, so one Print
+# Assumptions per family audits all of them
 THEOREMS = [
+    'C03_family_facets',
+    'C03_family_inside',
+    'C03_family_written',
+    'C03_family_references',
+    'C03_family_linked',
+]
+MEMBERS = [
     'C03_box_facet_k',
     'C03_box_inside',
     'C03_box_general_inside',
@@ -95,6 +105,14 @@ THEOREMS = [
     'C03_pot_transform_facet',
     'C03_pot_transform_whole',
     'C03_pot_transform_out_of_range',
+    'C03_expand_macro_den_written',
+    'C03_card_transformation_linked',
+    'C03_written_linked',
+    'C03_bodies_written_linked',
+    'C03_abbreviated_card_linked',
+    'C03_six_entry_card_linked',
+    'C03_trcl_by_number_linked',
+    'C03_expand_macro_den_written_linked',
 ]
 TRUSTED = [
     'hand-written model coq/C03/Vec.v + Model.v + Convert.v (modelled, tied by execution '
@@ -156,6 +174,21 @@ def run_cases(res, name, case_type, check_fun, cases):
     return bad, errs
 
 
+COV = None       # line-coverage tracer (c03_cov), active around the tied calls
+
+
+class _NoCov:
+    def __enter__(self):
+        return self
+
+    def __exit__(self, *exc):
+        return False
+
+
+def cov():
+    return COV if COV is not None else _NoCov()
+
+
 def _repo_funcs():
     from t4_geom_convert.Kernel.Surface import MacroBodies as MB
     return {'box': MB.box, 'rpp': MB.rpp, 'sph': MB.sph, 'rcc': MB.rcc,
@@ -171,7 +204,7 @@ TYPEMAP = {'P': 'TP', 'S': 'TS', 'C': 'TC', 'K': 'TK', 'GQ': 'TGQ'}
 
 # ---- implementation side ---------------------------------------------------
 
-def impl_body(mn, prm):
+def _impl_body_raw(mn, prm):
     '''The body function of MacroBodies.py on a list of floats.'''
     fun = _repo_funcs()[mn]
     try:
@@ -499,11 +532,11 @@ def tr_words(tr):
     return ' '.join(num(x) for x in tr[0] + tr[1])
 
 
-def gen_placement(rng):
+def gen_placement(rng, kind=None):
     '''How the cells are moved: (kind, tr, cell keyword text, data cards).'''
-    kind = rng.choice(['trcl-inline', 'trcl-inline', 'trcl-shift', 'trcl-num',
-                       'trcl-star', 'fill-inline', 'fill-inline', 'fill-num',
-                       'fill-shift'])
+    kind = kind or rng.choice(['trcl-inline', 'trcl-inline', 'trcl-shift',
+                               'trcl-num', 'trcl-star', 'fill-inline',
+                               'fill-inline', 'fill-num', 'fill-shift'])
     origin, mat = gen_tr(rng)
     if kind.endswith('shift'):
         mat = list(TR_ROTATIONS[0])
@@ -558,12 +591,12 @@ def transformed_deck(body, exprs, placement):
     return text, where
 
 
-def sweep_transformed(body, rng, n_random, n_near):
+def sweep_transformed(body, rng, n_random, n_near, kind=None):
     '''One deck of cells moved by one transformation, all referencing the
     body in different ways.  Same result layout as sweep_deck.'''
     sid, mn, prm = body
     exprs = gen_exprs(rng, n_facets(mn, prm))
-    placement = gen_placement(rng)
+    placement = gen_placement(rng, kind)
     kind, tr = placement[0], placement[1]
     text, where = transformed_deck(body, exprs, placement)
     conv = impl.convert(text)
@@ -679,7 +712,7 @@ def report_failures(res, sweep, label):
 
 # ---- the other ties --------------------------------------------------------
 
-def impl_macro(mn, prm):
+def _impl_macro_raw(mn, prm):
     '''to_surfaces_macro: [(type name after conversion, side)] or error.'''
     from t4_geom_convert.Kernel.FileHandlers.Parser.ParseMCNPSurface import \
         to_surfaces_mcnp
@@ -691,7 +724,7 @@ def impl_macro(mn, prm):
     return ('ok', [(s.type_surface.name, int(side)) for s, side in surfs])
 
 
-def impl_expand(new_key, n, sub, ids):
+def _impl_expand_raw(new_key, n, sub, ids):
     from t4_geom_convert.Kernel.Volume.CellConversion import CellConversion
     from MIP.geom.semantics import Surface
     conv = CellConversion(new_key, 0, {}, {}, {}, {})
@@ -720,7 +753,7 @@ def coq_expand_out(out):
     return f'(Ok ({term}, {cz(out[2])}))'
 
 
-def impl_number(dic):
+def _impl_number_raw(dic):
     '''dic: [(key, [sides])] -> matching as [(key, [ids])].'''
     from t4_geom_convert.Kernel.Surface.CollectionDict import CollectionDict
     coll = CollectionDict()
@@ -747,7 +780,7 @@ def _t4_out(coll):
              int(side)) for surf, side in coll.surfs]
 
 
-def impl_convert_entry(typ, params, side, tr):
+def _impl_convert_entry_raw(typ, params, side, tr):
     '''to_surface_mcnp (with the TR of the surface card when tr is given) +
     conversion_surface_params + SurfaceCollection.join on one entry.'''
     from t4_geom_convert.Kernel.FileHandlers.Parser.ParseMCNPSurface import \
@@ -770,7 +803,7 @@ def impl_convert_entry(typ, params, side, tr):
     return ('ok', _t4_out(joined))
 
 
-def impl_pot_transform(entries, sub, sign, tr):
+def _impl_pot_transform_raw(entries, sub, sign, tr, warm=()):
     '''CellConversion.pot_transform on the reference (+-9, sub) to a body
     whose entries are given; returns the new collection and the reference.'''
     from t4_geom_convert.Kernel.FileHandlers.Parser.ParseMCNPSurface import \
@@ -786,6 +819,14 @@ def impl_pot_transform(entries, sub, sign, tr):
                                         {}), s) for t, p, s in entries]
         dic_t4 = CollectionDict()
         conv = CellConversion(100, 200, {}, dic_t4, dic_mcnp, {})
+        # the same converter object first moves OTHER references to the same
+        # body by the same transformation: the result for (sign, sub) must not
+        # depend on that history (the model is a function of the reference)
+        for other in warm:
+            try:
+                conv.pot_transform(Surface(9 * other[0], other[1]), tr12(tr))
+            except Exception:      # pylint: disable=broad-except
+                pass
         ref = conv.pot_transform(Surface(9 * sign, sub), tr12(tr))
         coll = dic_t4[abs(ref)]
     except Exception as exc:      # pylint: disable=broad-except
@@ -807,9 +848,58 @@ def coq_t4_out(out):
                           for t, prm, side in out[1]) + ')'
 
 
+def impl_body(mn, prm):
+    with cov():
+        return _impl_body_raw(mn, prm)
+
+def impl_macro(mn, prm):
+    with cov():
+        return _impl_macro_raw(mn, prm)
+
+def impl_expand(new_key, n, sub, ids):
+    with cov():
+        return _impl_expand_raw(new_key, n, sub, ids)
+
+def impl_number(dic):
+    with cov():
+        return _impl_number_raw(dic)
+
+def impl_convert_entry(typ, params, side, tr):
+    with cov():
+        return _impl_convert_entry_raw(typ, params, side, tr)
+
+def impl_pot_transform(entries, sub, sign, tr, warm=()):
+    with cov():
+        return _impl_pot_transform_raw(entries, sub, sign, tr, warm)
+
+
 # ---- run ---------------------------------------------------------------------
 
 def run(res, tier, seed, proofs_ok):
+    '''Ties and sweeps; the tied calls run under a line-coverage tracer
+    restricted to the anchored functions.'''
+    import c03_cov
+    global COV
+    tracer = COV = c03_cov.LineCov(c03_cov.anchored_functions())
+    try:
+        _run(res, tier, seed, proofs_ok)
+    finally:
+        COV = None
+    total, missing = tracer.missing(c03_cov.UNREACHABLE)
+    res.obligation('coverage: the tied calls execute every reachable line of '
+                   f'the anchored functions ({total} lines of '
+                   f'{len(tracer.codes)} code objects)', not missing,
+                   f'never executed: {missing[:6]}')
+    if missing:
+        res.violation('correspondence',
+                      'the tied calls no longer reach these lines of the '
+                      f'anchored code (strengthen the generators): {missing[:8]}',
+                      {'theorem_or_correspondence': 'coverage',
+                       'input': {'lines': [list(m) for m in missing[:30]]}},
+                      found_input=False)
+
+
+def _run(res, tier, seed, proofs_ok):
     rng = random.Random(seed)
     quick = tier == 'quick'
     res.rule = ('macrobody parameter vectors over dyadic rationals: eleven '
@@ -860,6 +950,14 @@ def run(res, tier, seed, proofs_ok):
                    ('ell', G.gen_ell(rng, True)), ('ell', G.gen_ell(rng, False)),
                    ('wed', G.gen_wed(rng, 1)), ('wed', G.gen_wed(rng, -1))]
         forced += [('arb', G.gen_arb(rng, s)) for s in G.ARB_SHAPES]
+        # axis-parallel cylinders and cones, both directions: every CYLX/Y/Z,
+        # CONEX/Y/Z, PLANEX/Y/Z branch of the conversion in every run
+        for axis in range(3):
+            h = [0.0, 0.0, 0.0]
+            h[axis] = rng.choice(G.SCALES) * rng.choice([1, -1])
+            forced += [('rcc', G.flat(G.point(rng), h, rng.choice(G.SCALES))),
+                       ('trc', G.flat(G.point(rng), h,
+                                      *rng.sample([0.25, 0.5, 1.0, 1.5, 2.0], 2)))]
     for mn, prm in forced:
         inputs.append((mn, prm, None))
     while len(inputs) < n_ok:
@@ -931,7 +1029,7 @@ def run(res, tier, seed, proofs_ok):
     # TR of the surface card); pot_transform on facet references
     cv_cases, cv_meta = [], []
     pt_cases, pt_meta = [], []
-    step = 1 if not quick else 3
+    step = 1 if not quick else 2
     for idx, (mn, prm, fault, out) in enumerate(meta):
         if out[0] != 'ok' or idx % step:
             continue
@@ -951,7 +1049,10 @@ def run(res, tier, seed, proofs_ok):
             nent = len(out[1])
             sub = rng.choice([None, None] + list(range(0, nent + 2)))
             sign = rng.choice([1, -1])
-            got, ref = impl_pot_transform(out[1], sub, sign, ptr)
+            warm = [(rng.choice([1, -1]),
+                     rng.choice([None] + list(range(1, nent + 1))))
+                    for _ in range(rng.choice([0, 1, 2]))]
+            got, ref = impl_pot_transform(out[1], sub, sign, ptr, warm)
             res.count('pot_transform:' + ('err' if got[0] == 'err' else
                                           'whole' if sub is None else 'facet'))
             if got[0] == 'ok':
@@ -986,6 +1087,20 @@ def run(res, tier, seed, proofs_ok):
                     clist(coq_fentry(e) for e in out[1]),
                     copt(sub, cnat), coq_t4_out(got)))
                 pt_meta.append((mn, prm, sub, ptr, got))
+    for _ in range(12 if quick else 60):
+        pts9 = [rng.choice(G.COORDS) for _ in range(9)]
+        for ent in (('P', pts9, rng.choice([1, -1])),
+                    ('P', pts9[:5], 1), ('S', pts9[:3], 1), ('C', pts9[:6], 1),
+                    ('K', pts9[:6], -1)):
+            tr = gen_tr(rng) if rng.random() < 0.5 else None
+            got = impl_convert_entry(ent[0], ent[1], ent[2], tr)
+            res.count('convert-synthetic:' + (got[1] if got[0] == 'err' else
+                                              '+'.join(t for t, _, _ in got[1])))
+            if got[0] == 'ok' and any(x != x for _, pr, _ in got[1] for x in pr):
+                continue
+            cv_cases.append(cpair(clist(cfloat(x) for x in (tr12(tr) if tr else [])),
+                                  coq_fentry(ent), coq_t4_out(got)))
+            cv_meta.append(('synthetic', [], ent, tr, got))
     bad, errs = run_cases(res, 'c03_convert', 'convert_case', 'check_convert',
                           cv_cases)
     res.obligation(f'tie:convert ({len(cv_cases)} entries: to_surface_mcnp + '
@@ -1058,8 +1173,9 @@ def run(res, tier, seed, proofs_ok):
     descr = list(range(0, 130)) + [1234, 4321, 5230, 7024, 1256, 8765, 1000,
                                    1001, 9, 90, 909, 12345678, 10 ** 9]
     descr += [rng.randrange(0, 10 ** rng.randint(1, 9)) for _ in range(200)]
-    pf_cases = [cpair(cn(d), clist(cnat(i) for i in parse_facet(float(d))))
-                for d in descr]
+    with cov():
+        pf_cases = [cpair(cn(d), clist(cnat(i) for i in parse_facet(float(d))))
+                    for d in descr]
     bad, errs = run_cases(res, 'c03_facet', 'N * list nat',
                                       'check_parse_facet', pf_cases)
     res.obligation(f'tie:facet ({len(pf_cases)} descriptors: parse_facet)',
@@ -1161,7 +1277,7 @@ def run(res, tier, seed, proofs_ok):
                       found_input=False)
 
     # ---- 3. sweep with the independent oracle ----
-    n_decks = 150 if quick else 2000
+    n_decks = 220 if quick else 2000
     n_random, n_near = (60, 4) if quick else (200, 8)
     pool = [(mn, prm) for mn, prm, fault in inputs if fault is None]
     rng.shuffle(pool)
@@ -1224,16 +1340,23 @@ def run(res, tier, seed, proofs_ok):
                    f'{checked} comparisons')
 
     # ---- 3b. transformed cells referencing one body in several ways ----
-    n_tdecks = 60 if quick else 700
+    n_tdecks = 80 if quick else 700
     tchecked = 0
     tpool = [b for b in pool if n_facets(*b) >= 1]
     # fixed cases first: the RPP of the seeded-change demo under every placement
     fixed = [('rpp', [-1.0, 1, -2, 2, -3, 3]), ('box', [0.0, 0, 0, 0, 2, 0, 1, 0, 0, 0, 0, 3]),
              ('rcc', [0.0, 0, 0, 0, 0, 2, 1]), ('wed', [0.0, 0, 0, 0, 2, 0, 1, 0, 0, 0, 0, 3])]
+    # corpus: the RPP of the seeded change C03_B (memo in pot_transform keyed
+    # without the facet number) under every kind of placement, then the rest
+    kinds = ['fill-shift', 'fill-inline', 'fill-num', 'trcl-shift',
+             'trcl-inline', 'trcl-num', 'trcl-star']
     for d in range(n_tdecks):
-        mn, prm = fixed[d] if d < len(fixed) else tpool[(k + d) % len(tpool)]
+        kind = kinds[d] if d < len(kinds) else None
+        mn, prm = fixed[0] if d < len(kinds) else (
+            fixed[d - len(kinds)] if d - len(kinds) < len(fixed)
+            else tpool[(k + d) % len(tpool)])
         sw = sweep_transformed((rng.randint(1, 89), mn, prm), rng,
-                               *((40, 3) if quick else (120, 6)))
+                               *((40, 3) if quick else (120, 6)), kind=kind)
         res.count(f'transformed:{sw["kind"]}')
         res.count(f'transformed-body:{mn}')
         tchecked += sw['checked']
